@@ -58,6 +58,13 @@ class C20(Prop):
             if g % 3 == 0:          # values that look like booleans are still text
                 base["comment_val"] = ("true", "false", "True")[(g // 3) % 3]
                 base["source_val"] = ("false", "true")[(g // 3) % 2]
+            elif g % 3 == 1:        # text that INI syntax could mistake for a comment
+                base["comment_val"] = "season 1 #3 of 8 ; remux"
+                base["source_val"] = "ABC #1"
+            elif g % 6 == 2:        # percent signs, '=' and ':' in values; percent-escaped URLs
+                base["comment_val"] = "100% legit = yes: [really] %(x)s"
+                base["source_val"] = "50%off"
+                base["url_suffix"] = "?k=%20a%2Fb&x=1"
             out.append(dict(base, route="kw"))
             out.append(dict(base, route="config", announce_key=("announce", "tracker")[g % 2]))
             out.append(dict(base, route="config", explicit_false=True))     # switches spelled out as false
